@@ -21,12 +21,12 @@ def runStop : HG → List Op → Option (HG × Outcome)
       | none => none
       | some (t, o') => some (t, o.join o')
 
-def nodeItems (s : HG) : List (PyId × Option Attrs) := s.nodes.map fun n => (n, some (s.nattr n))
-def edgeItems (s : HG) : List EdgeItem :=
+def rebuildNodeItems (s : HG) : List (PyId × Option Attrs) := s.nodes.map fun n => (n, some (s.nattr n))
+def rebuildEdgeItems (s : HG) : List EdgeItem :=
   s.edges.map fun e => { members := s.mem e, idx := some e, attr := s.eattr e }
 
 /-- `cp.add_nodes_from((n, attr) …); cp.add_edges_from((members, idx, attr) …)` -/
-def rebuildOps (s : HG) : List Op := [.addNodesFrom (nodeItems s) [], .addEdgesFrom .f4 (edgeItems s) []]
+def rebuildOps (s : HG) : List Op := [.addNodesFrom (rebuildNodeItems s) [], .addEdgesFrom .f4 (rebuildEdgeItems s) []]
 
 /-- `Hypergraph(H)` / `to_hypergraph(H)`: rebuild, then `_net_attr = deepcopy(...)`; the counter is whatever
     the explicit IDs left it at -/
